@@ -5,9 +5,9 @@ C02 — everything emitted is specification-conformant TTLV.
 the encoder or decoder.  Proved here: everything `encode` produces is `WF`; everything the strict decoder
 accepts is `WF` (so "the Lean parser accepted these bytes with no residue", which the harness checks for every
 byte string /repo emits, implies well-formedness); the Python primitive encoders (M2) produce exactly the
-specification encoding on every value they accept, except Big Integer −2^(64k−1), where they emit one
-redundant group of eight sign bytes (still `WF`, not canonical) — stated as an explicit disjunction, with the
-converse and a witness; the type codes and envelope tags the specification side uses are the ones in the
+specification encoding — canonical, Big Integers at their minimal length — on every value they accept (the
+former exception, Big Integer −2^(64k−1) written with eight redundant sign bytes, is repaired in /repo); the
+type codes and envelope tags the specification side uses are the ones in the
 code's tables (regenerated from /repo on every run).
 
 The envelope half of the property is `Kmip.Envelope.faults` (an executable predicate on parsed trees) which
@@ -84,16 +84,12 @@ theorem encode_length_mul8 : ∀ (i : Item), (encode i).length % 8 = 0 := by
 
 /-! ### M2 against M1 -/
 
-/-- the specification's reading of a Python primitive value: Big Integers at their minimal length -/
-def specOf (v : PyVal) : PVal := (toSpec v).canon
+/-- the specification's reading of a Python primitive value -/
+def specOf (v : PyVal) : PVal := toSpec v
 
-/-- **Python primitive encoders = specification encoder**, on every value `write` accepts, except the
-characterised Big Integer case. -/
+/-- **Python primitive encoders = specification encoder**, on every value `write` accepts, with no exception. -/
 theorem py_prim_eq_spec (tag : Nat) (v : PyVal) (bs : Bytes) (h : pyEncode tag v = .ok bs) :
-    bs = encode (.prim tag (specOf v)) ∨
-    (∃ k : Nat, 0 < k ∧ v = .bigInteger (-((2 ^ (64 * k - 1) : Nat) : Int)) ∧
-      bs = encode (.prim tag (.bigInteger (-((2 ^ (64 * k - 1) : Nat) : Int)) (8 * k + 8))) ∧
-      specOf v = .bigInteger (-((2 ^ (64 * k - 1) : Nat) : Int)) (8 * k)) := by
+    bs = encode (.prim tag (specOf v)) := by
   have he : v.encodable := by
     apply Classical.byContradiction
     intro hn
@@ -101,47 +97,22 @@ theorem py_prim_eq_spec (tag : Nat) (v : PyVal) (bs : Bytes) (h : pyEncode tag v
     rw [hee] at h; cases h
   rw [pyEncode_eq tag v he] at h
   cases h
-  cases v with
-  | bigInteger x =>
-    rcases pyBigLen_cases x with heq | ⟨k, hk, hx, hlen⟩
-    · left; simp only [specOf, toSpec, PVal.canon, heq]
-    · right
-      have hb : bigLen x = 8 * k := by
-        have hpos : 0 < 2 ^ (64 * k - 1) := Nat.pow_pos (by decide)
-        have hna : x.natAbs = 2 ^ (64 * k - 1) := by rw [hx, Int.natAbs_neg, Int.natAbs_natCast]
-        have h1 : bitlen (2 ^ (64 * k - 1)) = 64 * k - 1 + 1 :=
-          bitlen_eq _ _ (Nat.le_refl _) (by rw [Nat.pow_succ]; omega)
-        have hp : pyBigLen x = 8 * (k + 1) := by
-          unfold pyBigLen; rw [hna, h1]; omega
-        omega
-      refine ⟨k, hk, by rw [hx], ?_, ?_⟩
-      · simp only [toSpec]; rw [hlen, hb, ← hx]
-      · simp only [specOf, toSpec, PVal.canon]; rw [hb, ← hx]
-  | _ => left; rfl
+  rfl
 
-/-- the exceptional case really occurs at every `k` (so the disjunction cannot be dropped) … -/
-theorem py_bigint_redundant (tag : Nat) (k : Nat) (hk : 0 < k) (hl : 8 * k + 8 < 256 ^ 4) :
-    pyEncode tag (.bigInteger (-((2 ^ (64 * k - 1) : Nat) : Int))) =
-      .ok (encode (.prim tag (.bigInteger (-((2 ^ (64 * k - 1) : Nat) : Int))
-            (bigLen (-((2 ^ (64 * k - 1) : Nat) : Int)) + 8)))) := by
-  have hp := pyBigLen_at_pow k hk
-  have hb : bigLen (-((2 ^ (64 * k - 1) : Nat) : Int)) + 8 ≤ 8 * k + 8 := by
-    have hpos : 0 < 2 ^ (64 * k - 1) := Nat.pow_pos (by decide)
-    have hneg : -((2 ^ (64 * k - 1) : Nat) : Int) < 0 := by omega
-    rw [bigLen_neg _ hneg]
-    have hna : (-((2 ^ (64 * k - 1) : Nat) : Int)).natAbs = 2 ^ (64 * k - 1) := by omega
-    rw [hna]
-    have h2 : bitlen (2 ^ (64 * k - 1) - 1) ≤ 64 * k - 1 := bitlen_le_of_lt_pow _ _ (by omega)
-    omega
-  have he : (PyVal.bigInteger (-((2 ^ (64 * k - 1) : Nat) : Int))).encodable := by
-    simp only [PyVal.encodable]; omega
-  rw [pyEncode_eq tag _ he]
-  simp only [toSpec, hp]
+/-- … and that encoding is the canonical one: a Big Integer is written at the specification's minimal length
+(`bigLen`, the smallest multiple of 8 bytes in which the value fits — `bigLen_least`) -/
+theorem py_prim_canonical (v : PyVal) : (specOf v).minimal = true := toSpec_minimal v
 
-/-- … e.g. `BigInteger(-2**63)`: 16 value bytes `ff…ff 80 00…00` where the specification needs 8 -/
-theorem py_bigint_redundant_witness :
-    pyBigLen (-9223372036854775808) = 16 ∧ bigLen (-9223372036854775808) = 8 := by
-  constructor <;> decide +kernel
+theorem py_bigint_minimal (v : Int) : pyBigLen v = bigLen v := pyBigLen_eq_bigLen v
+
+/-- `bigLen` is the least length: the value fits, and does not fit in one 8-byte group less -/
+theorem bigLen_least (v : Int) : fitsTC (bigLen v) v ∧ (8 < bigLen v → ¬ fitsTC (bigLen v - 8) v) :=
+  ⟨fits_bigLen v, bigLen_minimal v⟩
+
+/-- F-C02-a repaired: `BigInteger(-2**63)` takes 8 value bytes -/
+theorem py_bigint_boundary : pyBigLen (-9223372036854775808) = 8 ∧ pyBigLen (-9223372036854775809) = 16 ∧
+    pyBigLen 9223372036854775807 = 8 ∧ pyBigLen 9223372036854775808 = 16 := by
+  refine ⟨?_, ?_, ?_, ?_⟩ <;> decide +kernel
 
 /-- whatever a Python primitive encoder emits is well-formed TTLV (the redundant sign bytes included) -/
 theorem py_prim_wellformed (tag : Nat) (v : PyVal) (bs : Bytes) (ht : tagOk tag = true)
@@ -157,8 +128,8 @@ theorem py_prim_wellformed (tag : Nat) (v : PyVal) (bs : Bytes) (ht : tagOk tag 
   simp only [Item.Valid]
   exact ⟨ht, toSpec_valid v he⟩
 
-/-- values of the specification the Python classes cannot emit: e.g. the two-byte UTF-8 text "é" is a valid
-item for M1 while `TextString('é').write` raises (C01 `textString_nonascii_unencodable`) -/
+/-- the two-byte UTF-8 text "é" is a valid item for M1 and is what `TextString('é').write` emits
+(C01 `textString_nonascii_roundtrip`) -/
 example : (Item.prim 0x42007D (.textString [0xC3, 0xA9])).Valid := validB_sound _ (by decide +kernel)
 
 /-! ### the constants of the specification side are the ones the code uses -/
